@@ -533,3 +533,13 @@ def r7(ctx: Ctx) -> None:
             ok = False
     if not ok:
         ctx.report(fs.where, "surplus-dispatch", "Equation.surplus does not measure the violated side (LE: lhs - rhs, GE: rhs - lhs)", lineno=fs.node.lineno)
+
+
+
+@rule("C09", "R8.side-recognition", "SHARED(C06)",
+      "the side each branch is filed under comes from Rectangle.find_location: tolerance-aware abutment on exactly one side "
+      "within that side's extent -- the C06 rule R6 evaluated for the legaliser's input", floor=4)
+def shared_sides(ctx: Ctx) -> None:
+    from . import C06 as _c06
+    from .common import support
+    support(ctx, [_c06.r6], {"Rectangle.find_location"})
